@@ -30,6 +30,8 @@ def run(rep, tier):
     landing.r_land_stretch(rep, f)
     landing.r_land_stretch_sem(rep, f)
     landing.r_crange_all(rep, f)
+    rep.rule("R-LAND-FINISH", "the iteration whose accepted step puts x on xend ends the run: no path variant carries x == xend to the end of the loop body (the loop-head budget / underflow tests would pre-empt the completion test)")
+    landing.r_land_finish(rep, f)
     limits.r_hinit_clamp(rep, f)
     limits.r_first_sign_solvers(rep, f)
     C19.interrupt_rule(rep, f)
